@@ -258,6 +258,14 @@ def rule_R1_R3(text, fired):
                 if attr == 'cfg(debug_assertions)':
                     fired.add('R2'); k = kc + 1; continue
                 # any other attribute is kept (Verus will reject what it does not know)
+        if t.kind == 'id' and t.text == 'use':
+            pk = prev_code(toks, k)
+            if pk < 0 or (toks[pk].kind == 'p' and toks[pk].text in '{};'):
+                # R1: `use` declarations inside a body are dropped (single-file unit: names resolve to the prelude)
+                j = k
+                while j < n and not (toks[j].kind == 'p' and toks[j].text == ';'):
+                    j += 1
+                fired.add('R1'); k = j + 1; continue
         if t.kind == 'id' and k + 1 < n:
             kn = next_code(toks, k)
             if kn < n and toks[kn].kind == 'p' and toks[kn].text == '!' and t.text in (PANIC_MACROS | ASSERT_MACROS | ASSERT_EQ_MACROS | ASSERT_NE_MACROS):
